@@ -11,7 +11,9 @@ from pygradflow.util import sparse_zero
 def scale_symmetric(A):
     (n, _) = A.shape
 
-    A = A.tocoo()
+    # duplicate entries denote their sum
+    A = A.tocoo(copy=True)
+    A.sum_duplicates()
     a_rows = A.row
     a_cols = A.col
     a_data = np.abs(A.data)
@@ -87,7 +89,9 @@ class Scaling:
         (num_cons, num_vars) = cons_jac.shape
         assert obj_grad.shape == (num_vars,)
 
-        jac = cons_jac.tocoo()
+        # duplicate entries denote their sum
+        jac = cons_jac.tocoo(copy=True)
+        jac.sum_duplicates()
 
         rows = jac.row
         cols = jac.col
